@@ -30,32 +30,37 @@ vars == <<srid, base, real, hist, ok>>
 Bases == {"B1", "B2", "first"}          \* "first" = the position of the first observation (default of Track.toENUCoords())
 NoBase == "none"
 L93 == "2154"
-Log(a, arg) == hist' = Append(hist, [a |-> a, arg |-> arg, srid |-> srid', base |-> base', real |-> real'])
+\* kind: how the base argument is handed over - "none" (omitted: the recorded base is used), "geo" / "ecef" (an explicit
+\* GeoCoords / ECEFCoords object equal to the base; the caller's objects are constants: no conversion may modify them)
+Kinds == {"none", "geo", "ecef"}
+\* the default base ("first") exists only as the library derived it from the track: it can only be used implicitly
+KindsFor(b) == IF b = "first" THEN {"none"} ELSE Kinds
+Log(a, arg, kind) == hist' = Append(hist, [a |-> a, arg |-> arg, kind |-> kind, srid |-> srid', base |-> base', real |-> real'])
 
 \* Track.toECEFCoords(base = None)
 ToECEF ==
    \/ /\ srid = "Geo" /\ srid' = "ECEF" /\ real' = <<"ECEF">> /\ UNCHANGED base
-      /\ ok' = (ok /\ real = <<"Geo">>) /\ Log("toECEF", NoBase)
-   \/ /\ srid = "ENU" /\ base \in Bases /\ srid' = "ECEF" /\ real' = <<"ECEF">> /\ UNCHANGED base      \* falls back to the recorded base
-      /\ ok' = (ok /\ real = <<"ENU", base>>) /\ Log("toECEF", NoBase)
+      /\ ok' = (ok /\ real = <<"Geo">>) /\ Log("toECEF", NoBase, "none")
+   \/ /\ srid = "ENU" /\ base \in Bases /\ srid' = "ECEF" /\ real' = <<"ECEF">> /\ UNCHANGED base      \* recorded base, or the same base given explicitly
+      /\ ok' = (ok /\ real = <<"ENU", base>>) /\ \E kd \in KindsFor(base) : Log("toECEF", base, kd)
 \* Track.toENUCoords(b)   (b = "first": no argument, the first observation is used)
 ToENU(b) ==
    \/ /\ srid \in {"Geo", "ECEF"} /\ srid' = "ENU" /\ base' = b /\ real' = <<"ENU", b>>
-      /\ ok' = (ok /\ real = <<srid>>) /\ Log("toENU", b)
+      /\ ok' = (ok /\ real = <<srid>>) /\ \E kd \in (IF b = "first" THEN {"none"} ELSE {"geo", "ecef"}) : Log("toENU", b, kd)
    \/ /\ srid = "ENU" /\ base \in Bases /\ b # "first" /\ srid' = "ENU"
       /\ base' = (IF Legacy THEN base ELSE b) /\ real' = <<"ENU", b>>
-      /\ ok' = (ok /\ real = <<"ENU", base>>) /\ Log("toENU", b)
+      /\ ok' = (ok /\ real = <<"ENU", base>>) /\ \E kd \in {"geo", "ecef"} : Log("toENU", b, kd)
 \* Track.toGeoCoords(base = None)
 ToGeo ==
    \/ /\ srid = "ECEF" /\ srid' = "Geo" /\ real' = <<"Geo">> /\ UNCHANGED base
-      /\ ok' = (ok /\ real = <<"ECEF">>) /\ Log("toGeo", NoBase)
+      /\ ok' = (ok /\ real = <<"ECEF">>) /\ Log("toGeo", NoBase, "none")
    \/ /\ srid = "ENU" /\ base \in Bases /\ srid' = "Geo" /\ real' = <<"Geo">> /\ UNCHANGED base
-      /\ ok' = (ok /\ real = <<"ENU", base>>) /\ Log("toGeo", NoBase)
+      /\ ok' = (ok /\ real = <<"ENU", base>>) /\ \E kd \in KindsFor(base) : Log("toGeo", base, kd)
    \/ /\ srid = "ENU" /\ base = L93 /\ srid' = "Geo" /\ real' = <<"Geo">> /\ UNCHANGED base       \* inverse projection
-      /\ ok' = (ok /\ real = <<"L93">>) /\ Log("toGeo", NoBase)
+      /\ ok' = (ok /\ real = <<"L93">>) /\ Log("toGeo", NoBase, "none")
 \* Track.toProjCoords(2154)
 ToProj == /\ srid = "Geo" /\ srid' = "ENU" /\ base' = L93 /\ real' = <<"L93">>
-          /\ ok' = (ok /\ real = <<"Geo">>) /\ Log("toProj", L93)
+          /\ ok' = (ok /\ real = <<"Geo">>) /\ Log("toProj", L93, "none")
 
 Init == Mode = "mc" /\ srid = "Geo" /\ base = NoBase /\ real = <<"Geo">> /\ hist = <<>> /\ ok = TRUE
 Next == /\ Len(hist) < Depth
